@@ -526,6 +526,7 @@ def run(ctx: core.Ctx):
     ctx.assumptions = [
         "faults are injected at DatabaseAPI._execute_sql_against_backend (every statement Splink sends to the backend, DROP/CREATE included)",
         "left-over content-addressed tables of a failed call are allowed (they are harmless by C07); only the model, settings and later results are compared",
+        "compare_two_records in a continuation is called as documented: the TF tables of the model's term-frequency columns are pre-computed first, on the faulted and on the reference linker (without them the call applies no adjustment - the one documented history dependence)",
         "profile_columns deletes every table Splink created on the DatabaseAPI it is given (its last step, by design): handles to earlier results are not reused after it, failed or not",
     ]
     ctx.lean = core.lean_check(PROP, ctx.thorough)
